@@ -200,6 +200,16 @@ def run_history(method, kname, dim, two, ops, periodic=False):
                     y = pa.get('y', only_real_particles=False)
                     y -= 0.0625
             ip.update()
+        elif op == 'grow':
+            # smoothing lengths grown in place, then update(): neighbours
+            # must be searched with the new, larger radius
+            for pa in srcs:
+                pa.get('h', only_real_particles=False)[:] *= 1.75
+            ip.update()
+        # the smoothing length given to the target points (the largest
+        # source h when the target array was last created) is an input of
+        # the defining sums, not part of the statement: read it
+        th = float(ip.pa.get('h', only_real_particles=False)[0])
         for fieldname in ('f', 'const', 'linear'):
             if fieldname == 'f':
                 field = lambda pa: pa.get('f', only_real_particles=False)\
@@ -287,7 +297,9 @@ def _job(args):
     nev = 0
     nh = 0
     for d in range(0, depth + 1):
-        for ops in itertools.product(('points', 'arrays', 'move'), repeat=d):
+        alphabet = ('points', 'arrays', 'move') if periodic else \
+            ('points', 'arrays', 'move', 'grow')
+        for ops in itertools.product(alphabet, repeat=d):
             try:
                 pr, n = run_history(method, kname, dim, two, ops, periodic)
             except Exception as e:  # noqa
